@@ -7,6 +7,7 @@ toolchain go1.24.12
 require (
 	github.com/go-i2p/common v0.0.0
 	github.com/go-i2p/crypto v0.1.4-0.20260218221204-a8834457f3f1
+	go.step.sm/crypto v0.76.0
 )
 
 require (
@@ -20,7 +21,6 @@ require (
 	github.com/sirupsen/logrus v1.9.4 // indirect
 	go.opentelemetry.io/otel v1.39.0 // indirect
 	go.opentelemetry.io/otel/trace v1.39.0 // indirect
-	go.step.sm/crypto v0.76.0 // indirect
 	golang.org/x/crypto v0.47.0 // indirect
 	golang.org/x/sys v0.40.0 // indirect
 	golang.org/x/text v0.33.0 // indirect
